@@ -187,7 +187,7 @@ class NPLinalg(Forward):
     def matrix_rank(self, M, *a, **k):
         if _issym(M):
             _hit('np.linalg.matrix_rank')
-            raise core.Concretised("matrix_rank of symbolic matrix")
+            return sym_matrix_rank(_obj(M))
         return self._real.matrix_rank(M, *a, **k)
     def slogdet(self, M):
         if _issym(M):
@@ -357,6 +357,7 @@ class NPShim(Forward):
         return _np.sign(a)
     def log(self, a):
         if isinstance(a, SReal): return a.log()
+        if isinstance(a, STag): raise core.Concretised("log of sparse matrix")
         return _np.log(a)
     def exp(self, a):
         if isinstance(a, SReal): return a.exp()
@@ -462,6 +463,15 @@ def sym_inv(M):
         P = _np.zeros((n, n), dtype=object)
         for i in range(n): P[i, i] = 1 / SReal.lift(M[i, i])
         return P
+    if n <= 3:
+        # explicit form of the same contract at a concrete small shape: adj(M)/det(M)  (M P = P M = I iff det != 0)
+        det = sym_det(M)
+        P = _np.zeros((n, n), dtype=object)
+        for i in range(n):
+            for j in range(n):
+                minor = _np.delete(_np.delete(M, j, axis=0), i, axis=1)
+                P[i, j] = ((-1) ** (i + j)) * sym_det(minor) / det
+        return P
     P = _freshmat('inv', (n, n))
     I = _np.eye(n).astype(object)
     _add_eq(M @ P, I); _add_eq(P @ M, I)
@@ -473,6 +483,8 @@ def sym_solve(M, b):
     if _diag_only(M):
         d = _np.array([SReal.lift(M[i, i]) for i in range(M.shape[0])], dtype=object)
         return (b.T / d).T if b.ndim == 2 else b / d
+    if M.shape[0] <= 3 and M.shape[0] == M.shape[1]:
+        return sym_inv(M) @ b
     u = _freshmat('solve', b.shape)
     _add_eq(M @ u, b)
     return u
@@ -494,6 +506,17 @@ def sym_cholesky(P, lower=True):
         for i in range(n): L[i, i] = _np.sqrt(SReal.lift(P[i, i]))
         return L
     L = _np.zeros((n, n), dtype=object)
+    if n <= 3:
+        # the unique factor with positive diagonal, by the Cholesky recurrences (definitional square roots)
+        for j in range(n):
+            acc = SReal.lift(P[j, j])
+            for k in range(j): acc = acc - L[j, k] * L[j, k]
+            L[j, j] = acc.sqrt()
+            for i in range(j + 1, n):
+                acc = SReal.lift(P[i, j])
+                for k in range(j): acc = acc - L[i, k] * L[j, k]
+                L[i, j] = acc / L[j, j]
+        return L
     for i in range(n):
         for j in range(i + 1):
             s = fresh('chol'); L[i, j] = SReal(s)
@@ -511,8 +534,14 @@ NP = NPShim()
 
 def default_table():
     """module globals rebound in addition to `np` (DESIGN appendix A)"""
+    sps = SPS()
     return {
         'cuqi.solver._solver': dict(LA=NP.linalg),
+        'cuqi.distribution._gamma': dict(sps=sps), 'cuqi.distribution._inverse_gamma': dict(sps=sps),
+        'cuqi.distribution._beta': dict(sps=sps), 'cuqi.distribution._cauchy': dict(sps=sps),
+        'cuqi.distribution._normal': dict(erf=erf_shim),
+        'cuqi.distribution._gaussian': dict(nplinalg=NP.linalg, sps=sps, spa=SPA(), splinalg=SPLinalg(), sparse_cholesky=sparse_cholesky_shim),
+        'cuqi.utilities._utilities': dict(issparse=SPA().issparse),
     }
 
 
@@ -552,3 +581,225 @@ def uninstall():
         mod, k, v = _SAVED.pop()
         if v is _MISSING: mod.__dict__.pop(k, None)
         else: mod.__dict__[k] = v
+
+
+# ---------------------------------------------------------------------------------------------
+# scipy.stats / scipy.special : the textbook formula of the named law with the GIVEN arguments
+# ---------------------------------------------------------------------------------------------
+def _ew(f, *args):
+    """apply scalar term function f element-wise with numpy broadcasting"""
+    arrs = _np.broadcast_arrays(*[_np.asarray(a, dtype=object) for a in args])
+    out = _np.empty(arrs[0].shape, dtype=object)
+    for i in _np.ndindex(out.shape):
+        out[i] = f(*[SReal.lift(a[i]) for a in arrs])
+    return out if out.ndim else out[()]
+
+
+def _lg(x): return SReal(core.LGAMMA(T(x)))
+GAMMA_CDF = z3.Function('uf_gamma_cdf', R, R, R)        # regularised lower incomplete gamma P(a, z)
+BETA_CDF = z3.Function('uf_beta_cdf', R, R, R, R)       # regularised incomplete beta I_x(a, b)
+
+
+class _Law:
+    def __init__(self, name): self.name = name
+    def rvs(self, *a, size=None, random_state=None, **k):
+        _hit(f'scipy.stats.{self.name}.rvs')
+        gen = NP.random if random_state is None else random_state
+        ident = 'global' if random_state is None else getattr(random_state, 'ident', repr(random_state))
+        shape = size
+        syms = [fresh(f"rvs_{self.name}") for _ in range(int(_np.prod(shape)) if shape else 1)]
+        RNG_LOG.append((ident, f'{self.name}.rvs', (self.name, k), syms))
+        out = _np.array([SReal(s) for s in syms], dtype=object)
+        return out.reshape(shape) if shape else out[0]
+
+
+class _GammaLaw(_Law):
+    def logpdf(self, x, a, loc=0, scale=1):
+        _hit('scipy.stats.gamma.logpdf')
+        def f(x, a, loc, sc):
+            if not bool(x - loc > 0):
+                if bool(x - loc < 0): return float('-inf')
+                raise core.Concretised("density evaluated at the boundary of the support")
+            return (a - 1) * ((x - loc).log() - sc.log()) - (x - loc) / sc - _lg(a) - sc.log()
+        return _ew(f, x, a, loc, scale)
+    def cdf(self, x, a, loc=0, scale=1):
+        _hit('scipy.stats.gamma.cdf')
+        return _ew(lambda x, a, loc, sc: SReal(GAMMA_CDF(a.t, ((x - loc) / sc).t)), x, a, loc, scale)
+
+
+class _InvGammaLaw(_Law):
+    def logpdf(self, x, a, loc=0, scale=1):
+        _hit('scipy.stats.invgamma.logpdf')
+        # p(y) = y^(-a-1) exp(-1/y) / Gamma(a),  y = (x-loc)/scale,  density / scale
+        def f(x, a, loc, sc):
+            if not bool(x - loc > 0):
+                if bool(x - loc < 0): return float('-inf')
+                raise core.Concretised("density evaluated at the boundary of the support")
+            return (-a - 1) * ((x - loc).log() - sc.log()) - sc / (x - loc) - _lg(a) - sc.log()
+        return _ew(f, x, a, loc, scale)
+    def cdf(self, x, a, loc=0, scale=1):
+        _hit('scipy.stats.invgamma.cdf')
+        return _ew(lambda x, a, loc, sc: 1 - SReal(GAMMA_CDF(a.t, (sc / (x - loc)).t)), x, a, loc, scale)
+
+
+class _BetaLaw(_Law):
+    def logpdf(self, x, a, b, loc=0, scale=1):
+        _hit('scipy.stats.beta.logpdf')
+        def f(x, a, b):
+            if not bool(SBool(z3.And(x.t > 0, x.t < 1))):
+                if bool(SBool(z3.Or(x.t < 0, x.t > 1))): return float('-inf')
+                raise core.Concretised("density evaluated at the boundary of the support")
+            return (a - 1) * x.log() + (b - 1) * (1 - x).log() - (_lg(a) + _lg(b) - _lg(a + b))
+        return _ew(f, x, a, b)
+    def cdf(self, x, a, b, loc=0, scale=1):
+        _hit('scipy.stats.beta.cdf')
+        def f(x, a, b):
+            if bool(x >= 1): return SReal(z3.RealVal(1))
+            if bool(x <= 0): return SReal(z3.RealVal(0))
+            return SReal(BETA_CDF(x.t, a.t, b.t))
+        return _ew(f, x, a, b)
+
+
+class _CauchyLaw(_Law):
+    def logpdf(self, x, loc=0, scale=1):
+        return _ew(lambda x, loc, sc: -(NP.pi * sc * (1 + ((x - loc) / sc) ** 2)).log(), x, loc, scale)
+    def cdf(self, x, loc=0, scale=1):
+        _hit('scipy.stats.cauchy.cdf')
+        return _ew(lambda x, loc, sc: 0.5 + SReal(core.ATAN(((x - loc) / sc).t)) / NP.pi, x, loc, scale)
+
+
+class SPS(Forward):
+    def __init__(self):
+        import scipy.stats as _sps
+        super().__init__(_sps, 'scipy.stats')
+        object.__setattr__(self, 'gamma', _GammaLaw('gamma')); object.__setattr__(self, 'invgamma', _InvGammaLaw('invgamma'))
+        object.__setattr__(self, 'beta', _BetaLaw('beta')); object.__setattr__(self, 'cauchy', _CauchyLaw('cauchy'))
+
+
+def erf_shim(x):
+    _hit('scipy.special.erf')
+    if _issym(x): return _ew(lambda x: SReal(core.ERF(x.t)), x)
+    import scipy.special
+    return scipy.special.erf(x)
+
+
+# ---------------------------------------------------------------------------------------------
+# scipy.sparse / scipy.linalg : sparse algebra = dense algebra on the same entries (STag)
+# ---------------------------------------------------------------------------------------------
+class _SpLinalg(Forward):
+    def __init__(self):
+        import scipy.sparse.linalg as _l
+        super().__init__(_l, 'scipy.sparse.linalg')
+    def inv(self, M):
+        if isinstance(M, STag) or _issym(M): _hit('scipy.sparse.linalg.inv'); return STag(sym_inv(_obj(M)))
+        return self._real.inv(M)
+    def spsolve(self, M, b):
+        if isinstance(M, STag) or _issym(M, b):
+            _hit('scipy.sparse.linalg.spsolve')
+            if not isinstance(M, STag): M = _to_obj_matrix(M)
+            bb = _obj(b)
+            r = sym_solve(_obj(M), bb)
+            return r[:, 0] if (r.ndim == 2 and r.shape[1] == 1) else r
+        return self._real.spsolve(M, b)
+
+
+class _CsGraph(Forward):
+    def __init__(self):
+        import scipy.sparse.csgraph as _c
+        super().__init__(_c, 'scipy.sparse.csgraph')
+    def structural_rank(self, M):
+        if isinstance(M, STag):
+            _hit('scipy.sparse.csgraph.structural_rank')
+            a = M.a; n = a.shape[0]
+            if all(not _iszero(a[i, i]) for i in range(n)): return n
+            raise core.Concretised("structural_rank of symbolic pattern with zero diagonal")
+        return self._real.structural_rank(M)
+
+
+class SPA(Forward):
+    def __init__(self):
+        super().__init__(_sparse, 'scipy.sparse')
+        object.__setattr__(self, 'linalg', _SpLinalg()); object.__setattr__(self, 'csgraph', _CsGraph())
+    def issparse(self, x): return isinstance(x, STag) or _sparse.issparse(x)
+    def isspmatrix_dia(self, x): return (isinstance(x, STag) and x.format == 'dia') or _sparse.isspmatrix_dia(x)
+    def isspmatrix(self, x): return self.issparse(x)
+    def identity(self, n, dtype=None, format=None):
+        return STag(_np.eye(n).astype(object), format or 'dia')
+    def eye(self, n, *a, **k):
+        if a or any(key not in ('format', 'dtype') for key in k): return _sparse.eye(n, *a, **k)
+        return STag(_np.eye(n).astype(object), k.get('format') or 'dia')
+    def diags(self, d, offsets=0, shape=None, format=None, dtype=None):
+        if _issym(d):
+            _hit('scipy.sparse.diags')
+            if offsets != 0: raise core.Concretised("symbolic off-diagonal diags")
+            v = _obj(d).reshape(-1); n = len(v)
+            M = _np.zeros((n, n), dtype=object)
+            for i in range(n):
+                for j in range(n): M[i, j] = v[i] if i == j else 0.0
+            return STag(M, format or 'dia')
+        return _sparse.diags(d, offsets, shape=shape, format=format, dtype=dtype)
+    def csr_matrix(self, a, *args, **k):
+        if isinstance(a, STag): return a.tocsr()
+        if _issym(a): return STag(_obj(a), 'csr')
+        return _sparse.csr_matrix(a, *args, **k)
+    def csc_matrix(self, a, *args, **k):
+        if isinstance(a, STag): return a.tocsc()
+        if _issym(a): return STag(_obj(a), 'csc')
+        return _sparse.csc_matrix(a, *args, **k)
+
+
+class SPLinalg(Forward):
+    """scipy.linalg"""
+    def __init__(self):
+        import scipy.linalg as _l
+        super().__init__(_l, 'scipy.linalg')
+    def solve(self, M, b, **k):
+        if _issym(M, b): _hit('scipy.linalg.solve'); return sym_solve(_obj(M), _obj(b))
+        return self._real.solve(M, b, **k)
+    def solve_triangular(self, a, b, trans=0, lower=False, **k):
+        if _issym(a, b): _hit('scipy.linalg.solve_triangular'); return sym_solve_triangular(a, b, lower=lower, trans=trans)
+        return self._real.solve_triangular(a, b, trans=trans, lower=lower, **k)
+    def cholesky(self, M, lower=False, **k):
+        if _issym(M):
+            _hit('scipy.linalg.cholesky'); L = sym_cholesky(_obj(M)); return L if lower else L.T
+        return self._real.cholesky(M, lower=lower, **k)
+    def eigh(self, M, **k):
+        if _issym(M):
+            _hit('scipy.linalg.eigh'); return sym_eigh(_obj(M))
+        return self._real.eigh(M, **k)
+    def inv(self, M, **k):
+        if _issym(M): return sym_inv(_obj(M))
+        return self._real.inv(M, **k)
+
+
+def sym_eigh(M):
+    """contract of eigh for a symmetric matrix: fresh eigenvalues s (ascending) and orthonormal u with M u = u diag(s)"""
+    n = M.shape[0]
+    s = _np.array([SReal(fresh('eigval')) for _ in range(n)], dtype=object)
+    u = _freshmat('eigvec', (n, n))
+    I = _np.eye(n).astype(object)
+    _add_eq(u.T @ u, I); _add_eq(u @ u.T, I)
+    _add_eq(M @ u, u * s)          # column j scaled by s_j
+    for i in range(n - 1): ST.base.append(T(s[i]) <= T(s[i + 1]))
+    return _EigVals(s), u
+
+
+class _EigVals(_np.ndarray):
+    """eigenvalue vector that pretends to be float64 for dtype inspection (eigvalsh_to_eps)"""
+    def __new__(cls, a): return _np.asarray(a, dtype=object).view(cls)
+
+
+def sym_matrix_rank(M):
+    n = M.shape[0]
+    if M.shape[0] != M.shape[1]: raise core.Concretised("rank of non-square symbolic matrix")
+    d = sym_det(M)
+    if bool(d != 0): return n
+    raise core.Concretised("rank of singular symbolic matrix")
+
+
+def sparse_cholesky_shim(A):
+    """contract of cuqi.utilities.sparse_cholesky: upper triangular U with U^T U = A (positive diagonal)"""
+    _hit('cuqi.utilities.sparse_cholesky (contract)')
+    a = _obj(A)
+    L = sym_cholesky(a)
+    return STag(L.T, 'csc')
